@@ -30,6 +30,11 @@ def main():
     checks = ALL
     if "--checks" in sys.argv:
         checks = sys.argv[sys.argv.index("--checks") + 1].split(",")
+    # the checks rewrite evidence/<id>.json; evidence must describe runs on /repo itself, so the
+    # files are put back after the runs against the patched scratch worktree
+    ev_backup = f"/tmp/seedcheck_ev_{sid}"
+    shutil.rmtree(ev_backup, ignore_errors=True)
+    shutil.copytree(os.path.join(VERIF, "evidence"), ev_backup)
     wt = f"/tmp/seedcheck_{sid}"
     sh(f"git -C /repo worktree remove --force {wt}")
     r = sh(f"git -C /repo worktree add --detach {wt} HEAD")
@@ -71,6 +76,11 @@ def main():
         # restore evidence files from the clean tree is done by the caller (re-running checks)
     finally:
         sh(f"git -C /repo worktree remove --force {wt}")
+        for fn in os.listdir(ev_backup):
+            shutil.copy(os.path.join(ev_backup, fn), os.path.join(VERIF, "evidence", fn))
+        shutil.rmtree(ev_backup, ignore_errors=True)
+        # the generated Lean files were regenerated from the patched sources: regenerate from /repo
+        sh(f"cd {VERIF} && /venv/bin/python -c 'from harness import gen_tables; gen_tables.regenerate_all()'")
     dest = os.path.join(VERIF, "seeded", sid)
     os.makedirs(dest, exist_ok=True)
     for f in ("patch.diff", "demo.py", "notes.md"):
